@@ -77,9 +77,10 @@ def observe (didInit : Bool) : Action → Obs
   | .runStop => { closeCode := none, acks := 1, pongs := 0, started := false }   -- no subscription of that id: nothing to see
 
 /-- While a connection closes, frames queued behind the close may or may not go out; only the close code
-    is then a function of the frame. -/
+    is then a function of the frame — and the close frame itself is lost when the server's socket is reset
+    (observed as code 0). -/
 def obsMatches (want got : Obs) : Bool :=
-  if want.closeCode.isSome then want.closeCode == got.closeCode else want == got
+  if want.closeCode.isSome then (want.closeCode == got.closeCode || got.closeCode == some 0) else want == got
 
 /-! ## 2. HandleStart -/
 
